@@ -494,6 +494,33 @@ func gcScenarios(tier string) []*mc.Scenario {
 			})
 		}
 	}
+	// references held through collections: add of an already sent child,
+	// removal while a loading parent references it
+	for _, v := range []string{latest, "1.2.0"} {
+		v := v
+		out = append(out, &mc.Scenario{
+			Name: "gc/collection-refs/" + v, Props: []string{"C02"}, Monitors: allMons(),
+			Init: func(w *mc.World) {
+				s := w.Svc
+				s.Model("test.a", "k1", ref("test.x"))
+				s.Collection("test.l", `"p"`)
+				s.Collection("test.b")
+				s.Model("test.p", "x", ref("test.x"), "y", ref("test.y"))
+				s.Model("test.x", "n", `0`)
+				s.Model("test.y", "n", `0`)
+			},
+			Conns: []mc.ConnSpec{conn(v, req("subscribe.test.a", 0), req("subscribe.test.l", 0), req("subscribe.test.b", 0), req("unsubscribe.test.a", 2))},
+			Threads: []mc.Thread{{Name: "svc", Ops: []mc.Op{
+				op("l.add=x", 1, func(w *mc.World) { w.Svc.Add("test.l", 1, ref("test.x")) }),
+				op("l.add=x2", 1, func(w *mc.World) { w.Svc.Add("test.l", 0, ref("test.x")) }),
+				op("b.add=p", 1, func(w *mc.World) { w.Svc.Add("test.b", 0, ref("test.p")) }),
+				op("l.rm=x", 2, func(w *mc.World) { w.Svc.Remove("test.l", 2) }),
+				op("l.rm=x2", 2, func(w *mc.World) { w.Svc.Remove("test.l", 0) }),
+				op("b.rm=p", 3, func(w *mc.World) { w.Svc.Remove("test.b", 0) }),
+				op("l.add=y", 3, func(w *mc.World) { w.Svc.Add("test.l", 0, ref("test.y")) }),
+			}}},
+		})
+	}
 	// DESIGN 7(9): double reference from one parent, then a loading second parent
 	out = append(out, &mc.Scenario{
 		Name: "gc/double-ref", Props: []string{"C02"}, Monitors: allMons(),
